@@ -139,5 +139,7 @@ def run(ctx):
     # gridStep / gridStepKeepGradient against `step` applied by hand to every local line with its own gradient entry and radius
     from harness import gridops
     ctx.extra["grid_level_blocks_compared"] = gridops.check_grid_level(ctx, rng, "vpar")
+    # ... and with a weak potential (|c dt| of 1e-8 and less): a line that moves little still moves
+    ctx.extra["grid_level_blocks_compared"] += gridops.check_grid_level(ctx, rng, "vpar", grids=([1, 1], [2, 2]), amp=1e-6)
     ctx.sample({"meta": meta[3], "event": events[3]})
     ctx.sample({"meta": meta[-1], "event": events[-1]})
